@@ -681,6 +681,10 @@ class Network(BaseModel):  # pylint: disable=too-many-public-methods
                 elif len(ni.addr_range) > 1:
                     rule_name += f"_{i}"
                 rule_name += "_sam_idx"
+                if any(rule.desc == rule_name for rule in addr_table):
+                    raise ValueError(
+                        f"Address map entry name {rule_name} is not unique: "
+                        "address ranges of an endpoint need distinct `desc` labels")
                 addr_rule = RouteMapRule(dest=dest, addr_range=addr_range, desc=rule_name)
                 addr_table.append(addr_rule)
         return RouteMap(name="sam", rules=addr_table)
